@@ -108,6 +108,11 @@ def gen_case(tape, tier):
         elif k in ("update_defaults", "update_bound"):
             fd = tape.pick(w["functions"], "fn")
             p = tape.pick(fd["params"], "param")
+            if tape.coin(0.2, "on-a-copy"):
+                # the update is made on a copy of the pipeline (Pipeline.copy()), which is then thrown away: the original
+                # must not notice
+                ops.append({"op": "update_on_copy", "kind": k, "fn": fd["name"], "param": p, "value": tape.choose(2, "value")})
+                continue
             ops.append({"op": k, "fn": fd["name"], "param": p, "value": tape.choose(2, "value"),
                         # two values that differ only in the tenth digit (or inside a list): still two different values
                         "vkind": tape.pick(["str", "str", "float", "floatlist"], "value-kind")})
@@ -422,11 +427,8 @@ def run_A(case, tape, clear_on_mutation=False):
                         getattr(p[fn_out[op2["fn"]]], kind)({op2["param"]: val})
 
                     st = _mutate_both(mut, twin, cached)
-                    if st == "skip":
-                        # a refused mutation may have been applied half-way (validation runs after the
-                        # assignment): the two pipelines can no longer be assumed equal, so the history ends here
-                        probes["history_cut_at_refused_mutation"] = 1
-                        return
+                    if st == "refused":
+                        probes["mutation_refused_by_both"] = probes.get("mutation_refused_by_both", 0) + 1
                     if st == "asymmetric":
                         probes["discarded_asymmetric_mutation"] = 1
                         return
@@ -436,14 +438,22 @@ def run_A(case, tape, clear_on_mutation=False):
                     if clear_on_mutation and cached.cache is not None:
                         cached.cache.clear()
                     probes[kind] = probes.get(kind, 0) + 1
+                elif kind == "update_on_copy":
+                    val = _val(op2["param"], op2["value"]) + "-on-copy"
+                    for p_ in (twin, cached):
+                        try:
+                            q = p_.copy()
+                            getattr(q[fn_out[op2["fn"]]], op2["kind"])({op2["param"]: val})
+                        except Exception:  # noqa: BLE001 - refused on the copy: the original is not involved
+                            pass
+                    probes["update_on_copy"] = probes.get("update_on_copy", 0) + 1
                 elif kind == "swap_renames":
                     def mut(p, _is_cached):
                         p[fn_out[op2["fn"]]].update_renames({op2["a"]: op2["b"], op2["b"]: op2["a"]}, update_from="current")
 
                     st = _mutate_both(mut, twin, cached)
-                    if st == "skip":
-                        probes["history_cut_at_refused_mutation"] = 1
-                        return
+                    if st == "refused":
+                        probes["mutation_refused_by_both"] = probes.get("mutation_refused_by_both", 0) + 1
                     if st == "asymmetric":
                         probes["discarded_asymmetric_mutation"] = 1
                         return
@@ -472,11 +482,8 @@ def run_A(case, tape, clear_on_mutation=False):
                         p.replace(new)
 
                     st = _mutate_both(mut, twin, cached)
-                    if st == "skip":
-                        # a refused mutation may have been applied half-way (validation runs after the
-                        # assignment): the two pipelines can no longer be assumed equal, so the history ends here
-                        probes["history_cut_at_refused_mutation"] = 1
-                        return
+                    if st == "refused":
+                        probes["mutation_refused_by_both"] = probes.get("mutation_refused_by_both", 0) + 1
                     if st == "asymmetric":
                         probes["discarded_asymmetric_mutation"] = 1
                         return
@@ -540,16 +547,21 @@ def _cache_keys(p):
 
 
 def _mutate_both(mut, twin, cached):
-    """Apply a mutation to the twin first; refused there -> skipped for both."""
-    try:
-        mut(twin, False)
-    except Exception:  # noqa: BLE001
-        return "skip"
-    try:
-        mut(cached, True)
-    except Exception:  # noqa: BLE001
-        return "asymmetric"
-    return "ok"
+    """Apply a mutation to both pipelines.  A mutation that pipefunc refuses (raises) may still have been applied
+    half-way (validation runs after the assignment); both pipelines went through the same code up to the raise, so
+    they are still each other's twin and the history goes on: "refused".  Refused by one only: "asymmetric"."""
+    errs = []
+    for p_, is_cached in ((twin, False), (cached, True)):
+        try:
+            mut(p_, is_cached)
+            errs.append(None)
+        except Exception as e:  # noqa: BLE001
+            errs.append(type(e).__name__)
+    if errs[0] is None and errs[1] is None:
+        return "ok"
+    if errs[0] is not None and errs[0] == errs[1]:
+        return "refused"
+    return "asymmetric"
 
 
 def _c(v):
